@@ -723,11 +723,11 @@ def classify(feat, dump_feat, py, cy):
     unbound = ("UnboundLocalError", "NameError")
     if "retfinjump" in feat and cy[0] == "CRASH":
         return "return_in_loop_overridden_by_finally_jump"
-    if FX == "0" and ((py[0] in unbound) != (cy[0] in unbound) or
+    if FX == "0" and (cy[0] in ("CRASH", "SystemError") or (py[0] in unbound) != (cy[0] in unbound) or
                       (py[0] in unbound and cy[0] in unbound and py[2] != cy[2])):
         # known defects of the CFG construction (refuted theorems C21_asis_*): only for functions that have the
-        # syntactic shape, and only the symptom "the unbound error is raised at a different point / not at all /
-        # the compiled code dereferences NULL"
+        # syntactic shape, and only the symptoms "the unbound error is raised at a different point / not at all",
+        # "the compiled code dereferences NULL" (also in the decref of an assignment target wrongly hinted bound)
         if "jump2fin" in feat or "ret3fin" in feat:
             return "jump_skips_outer_finally"
         if "finjump" in feat:
